@@ -1,5 +1,7 @@
-\* non-vacuity control: without the named deviation ExtractAddOverflow the model must violate NoPanic
+\* control with the pinned (unrepaired) extract: FixExtractOverflow = FALSE must violate NoPanic
 CONSTANTS
+  FixExtractOverflow = FALSE
+  FixFramerError = TRUE
   Lfls = {8}
   HostLfls = {8}
   Endians = {TRUE, FALSE}
